@@ -164,7 +164,32 @@ class Run:
         s = attach(s, self.case["stages"])
         s = s.gather()
         run = self
+        self.gather_done = []     # arrival numbers of gather.update coroutines, in the order they completed
+        if self.dask:
+            orig_update = s.update
+            narr = [0]
+
+            def upd(x, who=None, metadata=None):
+                k = narr[0]
+                narr[0] += 1
+                fut = orig_update(x, who=who, metadata=metadata)
+                try:
+                    fut.add_done_callback(lambda f, k=k: run.gather_done.append(k))
+                except AttributeError:
+                    run.gather_done.append(k)
+                return fut
+            s.update = upd
         self.sink = s.sink(lambda x: run.sunk.append(x))
+        self.last_md = {}         # input id -> number of deliveries when the last result carrying its metadata arrived
+        orig_sink_update = self.sink.update
+
+        def sink_update(x, who=None, metadata=None):
+            r = orig_sink_update(x, who=who, metadata=metadata)
+            for m in (metadata or []):
+                if isinstance(m, dict) and "id" in m:
+                    run.last_md[m["id"]] = len(run.sunk)
+            return r
+        self.sink.update = sink_update
 
     def counter(self, i):
         from streamz.core import RefCounter
@@ -293,13 +318,20 @@ def run_dask(case, actions=None, awaited=True):
             else:
                 if not r.done(act[1]):
                     steps.append([act, None])      # not eligible in this run (replay on a different tree)
+                    if replay is None:
+                        stalled = True
+                        break
                     continue
             steps.append([act, [val_to_json(v) for v in r.sunk[seen:]], len(r.fired)])
             seen = len(r.sunk)
+            if r.emit_state and r.emit_state.startswith('failed'):
+                break                               # the pipeline raised into the producer: stop here
         log = list(r.client.log)
         return {"sunk": [val_to_json(v) for v in r.sunk], "fired": [list(f) for f in r.fired], "counts": r.counts(),
                 "stalled": stalled, "errors": r.errors, "steps": steps, "ntasks": len(r.client.futures),
                 "unfinished": r.client.unfinished(), "emit_state": r.emit_state,
+                "overtaken": r.gather_done != sorted(r.gather_done),
+                "last_md": {str(k): v for k, v in r.last_md.items()},
                 "nsubmit": sum(1 for e in log if e[0] == 'submit')}
     finally:
         r.close()
